@@ -288,7 +288,17 @@ func c10WhoWrites(c *Ctx, prog *load.Program, rule, pkgPath string, allowed map[
 						continue
 					}
 					sites++
-					if !ok[fn.String()] {
+					root := fn
+					for root.Parent() != nil {
+						root = root.Parent()
+					}
+					if !ok[root.String()] {
+						// an unexported helper that is never used as a value and whose every call site lies in an admitted
+						// writer (or another such helper) is part of that writer: what it stores is decided by the value rule
+						// of each constructor that calls it, which interprets the constructor with the helper inlined
+						if part, _ := onlyCalledFrom(prog, root, ok, 0); part {
+							continue
+						}
 						bad = fmt.Sprintf("%s of %s in %s at %s", hit, tn, fn.String(), PosStr(prog, in.Pos()))
 					}
 				}
